@@ -112,9 +112,20 @@ def atoms(cfg, non_ascii=False):
 class Table:
     def __init__(self, raw=None):
         if raw is None:
-            from asyncfix.protocol import FIXProtocol44
+            # The reference is "the FIX 4.4 group table" as given with the property (a snapshot of the table at
+            # the pinned commit), NOT whatever table the library has right now: a slip in one row of the
+            # library's table must show up as a round-trip failure, not silently move the generator with it.
+            import json
+            import os
 
-            raw = FIXProtocol44.repeating_groups
+            snap = os.path.join(os.path.dirname(os.path.abspath(__file__)), "c01_table.json")
+            if os.path.exists(snap):
+                with open(snap) as f:
+                    raw = json.load(f)
+            else:
+                from asyncfix.protocol import FIXProtocol44
+
+                raw = FIXProtocol44.repeating_groups
         self.rg = {str(k): [str(m) for m in v] for k, v in raw.items()}
         self.all_members = set()
         for v in self.rg.values():
@@ -777,6 +788,10 @@ def foreign_member(g):
     return None
 
 
+HDR_TRAILER_TAGS = ("50", "57", "89", "90", "91", "93", "97", "115", "116", "122", "128", "129", "142", "143", "144",
+                    "145", "212", "213", "347", "369")
+
+
 def spec_of(body, t="D", tk="enum", mode="alloc", ctr=1, num=None, pos="head"):
     return (t, tk, fill(body), mode, ctr, num, pos)
 
@@ -817,6 +832,7 @@ def units(include_non_ascii=False):
     if include_non_ascii:
         us.append(("val8", "flat"))
         us.append(("val8", "group"))
+        us.append(("hdr",))
     return us
 
 
@@ -1155,6 +1171,18 @@ def expand(unit):
         extra += [a for a in LATIN1_QUICK if a not in extra]
         for b in _val_bodies(unit[1], extra):
             yield spec_of(b)
+    elif fam == "hdr":
+        # C02 only (framing, not round trip): messages that carry standard header / trailer fields themselves
+        for t in HDR_TRAILER_TAGS:
+            for v in ("7", "x y"):
+                yield spec_of(((t, v),))
+                yield spec_of((("11", "v1"), (t, v), ("55", "v2")))
+                yield spec_of((("58", "v1"), ("11", "v2"), (t, v)))
+        yield spec_of((("11", "v1"), ("93", "3"), ("89", "sig")))
+        yield spec_of((("93", "3"), ("89", "sig"), ("58", "v1")))
+        yield spec_of((("212", "5"), ("213", "<a/> "), ("11", "v1")))
+        yield spec_of((("11", "v1"), ("43", "N"), ("97", "Y"), ("122", "20240101-00:00:00")))
+        yield spec_of((("11", "v1"), ("90", "3"), ("91", "abc"), ("347", "UTF-8")))
     elif fam == "valm":
         for b in _valm_bodies(unit[1], valm_atoms(), unit[2], unit[3]):
             yield spec_of(b)
